@@ -193,7 +193,7 @@ func init() {
 
 			// ---------------- wrap ----------------
 			emitWrap := func(o xOpts, mode uint64, x []byte, expect Val, nontrivial bool) Val {
-				in := VL{o.val(), VN(mode), VB(x), tabFor(x, string(expect.(VL)[0].(VT)) == "valid"), expect}
+				in := VL{o.val(), VN(mode), VB(x), tabFor(x, string(expect.(VL)[0].(VT)) != "none"), expect}
 				var existing []byte
 				if mode == 2 {
 					existing = r.Bytes(r.Intn(2*len(x) + 200))
@@ -270,6 +270,39 @@ func init() {
 						exp = none
 					}
 					emitExtract(o, ct.file, d, exp, dpad > 0 || string(d.(VL)[0].(VT)) != "absent")
+				}
+			}
+
+			// headers Header.ReadFrom accepts although they are odd: index offset anywhere (inside the
+			// payload, before it, past the end of the file, huge), arbitrary characteristics, a window
+			// that swallows the embedded index, a window shifted by one -- extraction must still give
+			// exactly the declared window; and a window claiming one byte more than the file holds
+			// must fail with io.EOF
+			if !huge {
+				ct := conts[0]
+				flen := uint64(len(ct.file))
+				ioffs := []uint64{ct.doff, ct.doff + ct.dsize/2, ct.doff + ct.dsize - 1, 51, 1, flen, flen + 1000, 1 << 62, 1<<63 - 1}
+				for t := 0; t < 3; t++ {
+					f := setHdrField(ct.file, 4, pick(r, ioffs))
+					if r.Chance(40) {
+						f = setHdrField(setHdrField(f, 0, r.U64()), 1, r.U64())
+					}
+					d := pick(r, dests(len(payload)))
+					emitExtract(fileOpts, f, d, VL{VT("window"), VN(ct.doff), VN(ct.dsize)}, true)
+					c.Count("c10hdr:index-offset-anywhere")
+				}
+				{
+					f := setHdrField(ct.file, 3, flen-ct.doff) // payload window runs to the end of the file
+					emitExtract(fileOpts, f, pick(r, dests(len(payload))), VL{VT("window"), VN(ct.doff), VN(flen - ct.doff)}, true)
+					f = setHdrField(ct.file, 3, flen-ct.doff+1) // one byte more than the file holds
+					emitExtract(fileOpts, f, pick(r, dests(len(payload))), VL{VT("short")}, true)
+					f = setHdrField(ct.file, 3, 1<<63-1)
+					emitExtract(fileOpts, f, pick(r, dests(len(payload))), VL{VT("short")}, true)
+					f = setHdrField(setHdrField(ct.file, 2, ct.doff+1), 3, ct.dsize-1) // window shifted by one
+					emitExtract(fileOpts, f, pick(r, dests(len(payload))), VL{VT("window"), VN(ct.doff + 1), VN(ct.dsize - 1)}, true)
+					f = setHdrField(setHdrField(ct.file, 2, flen-1), 3, 1) // the last byte of the file
+					emitExtract(fileOpts, f, pick(r, dests(len(payload))), VL{VT("window"), VN(flen - 1), VN(1)}, true)
+					c.CountN("c10hdr:window-variants", 5)
 				}
 			}
 
@@ -458,9 +491,10 @@ func init() {
 					c.Count("malformed:wrap-cid-overruns-section")
 				}
 				// CARv2 as the source of WrapV1 (misuse the code does not refuse)
+				c10v2 := VL{VT("carv2"), cidsVal(roots), blksVal(blks)}
 				for _, ct := range conts {
-					emitWrap(randOpts(memMaxSeek), 0, ct.file, none, false)
-					emitWrap(randOpts(fileSeek), 4, ct.file, none, false)
+					emitWrap(randOpts(memMaxSeek), 0, ct.file, c10v2, nt)
+					emitWrap(randOpts(fileSeek), 4, ct.file, c10v2, nt)
 					g := setHdrField(ct.file, 2+r.Intn(2), pick(r, vals))
 					emitWrap(randOpts(memMaxSeek), 0, g, none, false)
 					c.CountN("malformed:wrap-carv2-source", 3)
@@ -547,6 +581,14 @@ func init() {
 		// the same container cut inside the payload: partial overwrite, io.EOF
 		cut := ct.file[:int(ct.doff)+20]
 		c.Emit("xextract", VL{o.val(), VB(cut), VL{VT("same")}, VL{}, VL{VT("none")}, VN(7)}, runExtractImpl(c, o, cut, VL{VT("same")}), true)
+		// the same container with its index offset pointing into the payload and other characteristics:
+		// still accepted, same window; and with a window one byte longer than the file: io.EOF
+		odd := setHdrField(setHdrField(ct.file, 4, ct.doff+ct.dsize/2), 0, 0xdeadbeef)
+		c.Emit("xextract", VL{o.val(), VB(odd), VL{VT("same")}, VL{}, win, VN(3)}, runExtractImpl(c, o, odd, VL{VT("same")}), true)
+		over := setHdrField(ct.file, 3, uint64(len(ct.file))-ct.doff+1)
+		c.Emit("xextract", VL{o.val(), VB(over), larger, VL{}, VL{VT("short")}, VN(3)}, runExtractImpl(c, o, over, larger), true)
+		// the CARv2 as the SOURCE of WrapV1: the whole file is wrapped, the index is the inner payload's
+		c.Emit("xwrap", VL{o.val(), VN(0), VB(ct.file), VL{}, VL{VT("carv2"), cidsVal(roots), blksVal(blks)}}, runWrapImpl(c, o, 0, ct.file, nil), true)
 		// round trip
 		for _, d := range []Val{VL{VT("same")}, larger} {
 			in := VL{o.val(), VB(payload), d, VL{}, VN(5)}
